@@ -123,7 +123,7 @@ def search(ctx):
         pass
     for src in SEARCH_SOURCES:
         out.append("C04.fix\ttext:" + src.encode().hex())
-    for d in SEARCH_NAMES:
+    for d in SEARCH_NAMES + generated_name_candidates():
         out.append("C04.names\t" + d + "\t?")
     # and a slice of the literal stream with other seeds
     out += ["C04.fix\tlit:%d" % (1000003 * k + ctx.seed) for k in range(1, 120)]
@@ -183,6 +183,52 @@ SEARCH_NAMES = [
     # an enum scope in between: a root namespace `E` and an enum `E` in the using namespace
     "ns E gv x end ns M en E V end fn g - uv a E x ; ue r E V ; end end",
 ]
+
+
+# the names of the stream's pool the exporter has to rename (reserved words of the output language that are plain
+# identifiers of the source language) and a pool name that is renamed because a namespace of the scope has it too
+RENAMED_POOL = ["texture", "pass", "technique"]
+
+
+def generated_name_candidates():
+    """descriptors tried when an obligation about generated names no longer checks (`generated_names_reserved_as_modelled`,
+    C15's leg over NameMap::build): every kind of entity whose name gets RENAMED on export, with a parameter / local /
+    local of a nested block / local of a method body spelled exactly like the generated name `<name>_<k>` (k = 0..2),
+    followed by uses of the entity in that scope - type: declaration, cast + enum variable, enum value through it,
+    namespace-level use; function / global: call, assignment (control: those are reserved by the usage loop)"""
+    out = []
+    for n in RENAMED_POOL:
+        for k in range(3):
+            g = "%s_%d" % (n, k)
+            # the entity alone in its scope is printed <n>_0; next to a namespace of that name it is <n>_1; next to a
+            # namespace and a user entity called <n>_1 it is <n>_2
+            pre = ["", "ns %s gv q end " % n, "ns %s gv q end gv %s_1 " % (n, n)][k]
+            out += [
+                pre + "st %s end fn f %s ut a %s ; end" % (n, g, n),
+                pre + "st %s end fn f - lv %s ut a %s ; ut r %s ; end" % (n, g, n, n),
+                pre + "st %s end fn f - bl lv %s ut r %s ; end end" % (n, g, n),
+                pre + "st %s end st T lv %s ut a %s ; end" % (n, g, n),
+                pre + "st %s end ns M fn f %s ut a %s ; end end" % (n, g, n),
+                "ns M " + pre + "st %s end fn f %s ut r %s ; ut a M %s ; end end" % (n, g, n, n),
+            ]
+            if k == 0:
+                out += [
+                    "en %s V1 end fn f %s uy a %s ; ue a %s V1 ; end" % (n, g, n, n),
+                    "en %s V1 end fn f - lv %s uy a %s ; ue r V1 ; end" % (n, g, n),
+                    "en E %s end fn f - lv %s ue a E %s ; ue a %s ; end" % (n, g, n, n),
+                    "ns %s st S end gv x end fn f %s ut a %s S ; uv a %s x ; end" % (n, g, n, n),
+                    "st %s end td W a %s ; fn f %s ut r W ; end" % (n, n, g),
+                    # control: functions / globals
+                    "fn %s - end fn g %s uf a %s ; end" % (n, g, n),
+                    "gv %s fn g - lv %s uv a %s ; end" % (n, g, n),
+                    "gv %s fn g %s bl lv %s uv a %s ; end end" % (n, g, g, n),
+                ]
+    # homonyms across kinds (no reserved word): namespace A and struct A in one scope are printed A_0 and A_1
+    for k in range(3):
+        out += ["ns A gv q end st A end fn f A_%d ut a A ; end" % k,
+                "ns A gv q end st A end fn f - lv A_%d ut a A ; uv a A q ; end" % k,
+                "ns B ns A gv q end st A end fn f A_%d ut r A ; end end" % k]
+    return out
 
 
 def nontrivial(req, obs):
@@ -268,7 +314,7 @@ def finding_key(req, obs, detail):
 
 SPEC = {
     "id": "C04",
-    "gens": ["SlotTables", "FixpointTables", "PathLookup", "TemplateConst", "RankTable", "TypingTables", "HlslGenTables", "HlslIntrinsicTables",
+    "gens": ["SlotTables", "FixpointTables", "PathLookup", "TemplateConst", "NameReserve", "RankTable", "TypingTables", "HlslGenTables", "HlslIntrinsicTables",
              "MetaTables", "CompileTables"] + LEG_GENS,
     "lean_modules": ["RsslVerif.Thm.C04"] + LEG_MODULES,
     "theorems": [T + n for n in [
@@ -286,7 +332,10 @@ SPEC = {
         "emitted_path_captured_witness", "namesAgree_of_pathsResolveBack", "fixpoint_expr_paths",
         # the kind of a template value argument through export and re-compilation (Model.FixpointTemplate)
         "template_const_as_modelled", "emitted_literal_kind_stable", "template_instance_reelab",
-        "template_instance_reelab_stmt", "emitted_literal_kind_int32_witness", "mutant_discipline_loses_literal_kind"]] + LEG_THEOREMS,
+        "template_instance_reelab_stmt", "emitted_literal_kind_int32_witness", "mutant_discipline_loses_literal_kind",
+        # generated names are reserved against locals (C15's model of NameMap::build, Lemmas.FixpointGenNames)
+        "generated_names_reserved_as_modelled", "local_meets_only_kept_names", "generated_names_apart_from_locals",
+        "late_set_loses_generated_type_names"]] + LEG_THEOREMS,
     "harness": "c04",
     "custom": custom,
     "nontrivial": nontrivial,
